@@ -170,3 +170,11 @@ Proof.
       exists (f :: em). pose proof (fc_nonneg f). pose proof (sumfc_nonneg em).
       unfold sumfc in *. simpl. subst. repeat split; auto; try lia.
 Qed.
+
+Lemma fold_last_occ id kv : forall cur,
+  fold_left (fun m p => if N.eqb (fst p) id then snd p else m) kv cur =
+  match last_occ id kv with Some v => v | None => cur end.
+Proof.
+  induction kv as [|p t IH]; intros cur; simpl; [reflexivity|].
+  rewrite IH. destruct (last_occ id t); [reflexivity|]. destruct (N.eqb (fst p) id); reflexivity.
+Qed.
